@@ -22,7 +22,7 @@ var RuleCatalogue = []string{
 	"nullable_non_optional", "nullable_message",
 	"empty_behavior_scalar", "empty_behavior_repeated", "empty_behavior_map",
 	"timestamp_format_wrong_type", "bytes_encoding_wrong_type",
-	"flatten_repeated", "flatten_map", "flatten_scalar", "flatten_oneof_member", "flatten_collision",
+	"flatten_repeated", "flatten_map", "flatten_scalar", "flatten_oneof_member", "flatten_collision", "flatten_with_codec_field",
 	"prefix_without_flatten",
 	"discriminator_collision", "oneof_flatten_scalar_variant", "oneof_flatten_child_collision",
 	"enum_number_with_custom_values",
@@ -219,6 +219,31 @@ func Inject(t *rapid.T, s *Schema, rule, placement string) *Injection {
 		bad.Kind, bad.TypeRef, bad.Oneof = KMessage, helper("FlatTarget", &Field{Name: "ftx", Number: 1, Kind: KString, Card: Singular}), "pick_one"
 		bad.EnsureAnn().Flatten = true
 		off.Fields = append(off.Fields, bad, &Field{Name: "other_variant", Number: 11, Kind: KString, Card: Singular, Oneof: "pick_one"})
+	case "flatten_with_codec_field":
+		// a message whose MarshalJSON flatten owns cannot also hold a field whose annotation needs one, whichever is declared first
+		flat := &Field{Name: "flat_child", Number: 12, Kind: KMessage, TypeRef: helper("FlatPart", &Field{Name: "fpx", Number: 1, Kind: KString, Card: Singular}), Card: Singular, Ann: &Ann{Flatten: true}}
+		codecs := []func(){
+			func() { bad.Kind = KInt64; bad.EnsureAnn().Int64Encoding = 2 },
+			func() { bad.Kind = KBytes; bad.EnsureAnn().BytesEncoding = 3 },
+			func() { bad.Kind = KTimestamp; bad.EnsureAnn().TimestampFormat = 2 },
+			func() { bad.Kind, bad.Card = KString, Optional; bad.EnsureAnn().Nullable = true },
+		}
+		k := 0
+		if InjectShape >= 0 {
+			k = InjectShape
+		} else {
+			k = rapid.IntRange(0, 7).Draw(t, "codec_and_order")
+		}
+		codecs[k%4]()
+		if (k/4)%2 == 0 {
+			off.Fields = append(off.Fields, flat, bad) // the annotated field after the flatten field
+			inj.Shape = "codec_after_flatten"
+		} else {
+			bad.Number, flat.Number = 9, 10
+			off.Fields = append(off.Fields, bad, flat)
+			inj.Shape = "codec_before_flatten"
+		}
+		inj.Offenders = append(inj.Offenders, "flat_child")
 	case "flatten_collision":
 		prefix := ""
 		child := "clash_name"
